@@ -1028,6 +1028,21 @@ func (env *SpecEnv) call(x *CExpr) (SVal, error) {
 			return SVal{}, err
 		}
 		return SVal{T: W.zero(t), Typ: t, Sort: W.sortOf(t)}, nil
+	case "addrof": // addrof(x): the address of a variable captured by reference (closure free variable)
+		if len(x.Args) != 1 || x.Args[0].Op != "id" || env.fr == nil {
+			return SVal{}, fmt.Errorf("addrof needs a variable name")
+		}
+		for _, p := range env.fr.fn.FreeVars {
+			if p.Name() == x.Args[0].Name {
+				if _, ok := p.Type().(*types.Pointer); ok {
+					v := e.val(p)
+					if v.Loc == nil {
+						return SVal{T: v.T, Typ: p.Type(), Sort: "Int"}, nil
+					}
+				}
+			}
+		}
+		return SVal{}, fmt.Errorf("addrof: %s is not a variable captured by reference", x.Args[0].Name)
 	case "fieldaddr": // fieldaddr(p, f): the address &p.f of a struct-valued field f embedded by value in *p
 		a, err := argv(0)
 		if err != nil {
